@@ -173,6 +173,36 @@ class SymCtx:
         x, y = fresh("cx"), fresh("cy")
         return BoolV(z3.ForAll([x, y], B(body(IntV(x), IntV(y)))))
 
+    def same_tuple(self, a, b):
+        """a and b are the same tuple (equality of tuple terms; extensionality is available here)"""
+        from .values import TEQ, teq_axioms
+
+        ta, tb = a.meta.get("tterm"), b.meta.get("tterm")
+        if ta is None or tb is None:
+            raise Unsupported("same_tuple needs tuple terms")
+        eng = self.engine
+        if not getattr(eng, "_teq_on", False):
+            eng._teq_on = True
+            eng.global_axioms.extend(teq_axioms())
+            eng.rules_used.add("TUPLE-EXTENSIONALITY (tuples with equal length and entries are equal)")
+        return BoolV(TEQ(ta, tb))
+
+    def count_below(self, t, v, upto=None):
+        """number of positions j (< upto, default: all) of the tuple t with t[j] < v"""
+        tau = t.meta.get("tterm")
+        if tau is None:
+            raise Unsupported("count_below needs a tuple term")
+        return self.engine.count_below(tau, v, upto)
+
+    def through(self, p, t):
+        """the tuple (p[e] for e in t)"""
+        from .values import from_T
+
+        tau = t.meta.get("tterm")
+        if tau is None:
+            raise Unsupported("through needs a tuple term")
+        return from_T(self.engine.map_through(p, tau))
+
     def forall_tuple(self, n, body, universe=None):
         """for every integer tuple t of length n (a variable of the tuple sort; trigger tid(t))"""
         from .values import TID, TLEN, TUP, from_T
@@ -468,6 +498,16 @@ class RunCtx:
     def forall_cell(self, body, span=None):
         lo, hi = span or (-2, 12)
         return all(body(x, y) for x in range(lo, hi) for y in range(lo, hi))
+
+    def same_tuple(self, a, b):
+        return tuple(a) == tuple(b)
+
+    def count_below(self, t, v, upto=None):
+        k = len(t) if upto is None else upto
+        return sum(1 for j in range(k) if t[j] < v)
+
+    def through(self, p, t):
+        return tuple(p[e] if 0 <= e < len(p) else -10 ** 9 for e in t)
 
     def forall_tuple(self, n, body, universe=None):
         """run time: every tuple of length n over the given universe of entries (default: -1..6)"""
